@@ -83,4 +83,5 @@ SILENT_EDITS = [   # behaviour-preserving, no new violation
 
 
 def run(ctx):
-    return [pC20.rule_order(ctx), pC20.rule_once(ctx), pC20.rule_let_order(ctx), pC20.rule_drop(ctx)]
+    from ..rules import flatpar
+    return [pC20.rule_order(ctx), pC20.rule_once(ctx), pC20.rule_let_order(ctx), pC20.rule_drop(ctx), flatpar.rule_flat(ctx)]
